@@ -53,7 +53,7 @@ def apply(m, d):
 
 def one(m, tier, all_checks, skip_suite):
     d = tempfile.mkdtemp(prefix="rv-mut-" + m["id"] + "-", dir="/tmp")
-    res = {"id": m["id"], "props": m["props"], "file": m["file"]}
+    res = {"id": m["id"], "props": m["props"], "file": m["file"], "equivalent": bool(m.get("equivalent"))}
     try:
         subprocess.run(["rsync", "-a", "--exclude", ".git", "--exclude", ".hypothesis", "--exclude", "docs", "--exclude", "__pycache__", REPO + "/", d + "/"], check=True)
         err = apply(m, d)
@@ -69,7 +69,7 @@ def one(m, tier, all_checks, skip_suite):
         else:
             res["suite"] = "skipped"
         res["checks"] = {}
-        for prop in (ALL if all_checks else m["props"]):
+        for prop in (ALL if (all_checks or m.get("equivalent")) else m["props"]):
             if not os.path.exists(os.path.join(ROOT, "rv", "checks", prop.lower() + ".py")):
                 continue
             e2 = dict(os.environ, VERIF_REPO=d, VERIF_SEED=str(m.get("seed", 0)))
@@ -103,7 +103,11 @@ def main():
                 continue
             caught = [p for p, c in r["checks"].items() if c["exit"] == 1]
             missed = [p for p in r["props"] if p in r["checks"] and r["checks"][p]["exit"] != 1]
-            print(f"{r['id']:8s} suite={r['suite']:5s} caught_by={caught} missed_by_designated={missed}")
+            if r.get("equivalent"):
+                nonzero = {p: c["exit"] for p, c in r["checks"].items() if c["exit"] != 0}
+                print(f"{r['id']:8s} suite={r['suite']:5s} EQUIVALENT edit: non-zero exits {nonzero or 'none'}")
+            else:
+                print(f"{r['id']:8s} suite={r['suite']:5s} caught_by={caught} missed_by_designated={missed}")
             sys.stdout.flush()
     prev = {}
     if a.ids and os.path.exists(a.out + ".json"):
@@ -119,6 +123,10 @@ def main():
                 f.write(f"| {r['id']} | {r['file']} | - | - | - | not applicable to this tree ({r['error']}) |\n")
                 continue
             caught = [p for p, c in r["checks"].items() if c["exit"] == 1]
+            if r.get("equivalent"):
+                bad = [p for p, c in r["checks"].items() if c["exit"] != 0]
+                f.write(f"| {r['id']} | {r['file']} | {r['suite']} | all 20 (behaviour-preserving edit) | {','.join(bad)} | {'FALSE ALARM' if bad else 'all checks stay green'} |\n")
+                continue
             if r["suite"] == "FAIL":
                 verdict = "killed by the repository's own tests (not a realistic surviving change)"
             elif all(p in caught for p in r["props"] if p in r["checks"]):
